@@ -354,8 +354,10 @@ def ops_strategy():
     tick = st.builds(lambda t: ['tick', t], st.sampled_from([0.5, 1.0, 2.5, 5.0, 9.0]))
     # an authentic request whose exchange type is not the one its payloads / the state call for: it is in the window, so it
     # is answered (an error), and the answer belongs to the exchange of the request
+    late = st.builds(lambda t, s_, k: [t, s_, k], st.sampled_from(['rekey_ike_any', 'del_ike_any', 'dpd_any']), st.sampled_from(['a', 'b']),
+                     st.integers(0, 2))
     rew = st.builds(lambda i, x: ['rewrite', i, 'exchange', x], st.integers(0, 3), st.sampled_from([35, 36, 37]))
-    return st.lists(st.one_of(trig, trig, deliver, deliver, deliver, dup, dup, old, old, drop, tick, rew), min_size=3, max_size=40)
+    return st.lists(st.one_of(trig, trig, deliver, deliver, deliver, dup, dup, old, old, drop, tick, rew, late), min_size=3, max_size=40)
 
 
 @st.composite
